@@ -3,8 +3,8 @@
 package main
 
 import (
-	"net/http/httptest"
 	"net/http"
+	"net/http/httptest"
 	"net/url"
 	"sort"
 	"strconv"
@@ -17,7 +17,9 @@ import (
 
 // Driver "cook": every Set-Cookie of every endpoint and error path under a grid of configurations (C14), the jar of a standards-following
 // browser after callback / logout (C14), chains of failing requests followed by a cookie-keeping browser (C17) and the login rate limit (C17).
-func init() { register("cook", "cookie attributes and scope, jar after callback/logout, retry chains, login rate limit (C14 C17)", runCook) }
+func init() {
+	register("cook", "cookie attributes and scope, jar after callback/logout, retry chains, login rate limit (C14 C17)", runCook)
+}
 
 func cookieClass(name string) string {
 	switch name {
@@ -141,7 +143,7 @@ func runCook(c *ctx) {
 	for ci, cc := range cfgs {
 		cc := cc
 		o := sutOpts{ingresses: []string{cc.ingress}, secure: cc.secure, sidRequired: true, legacyCookie: ci%3 == 1, // deterministic: the legacy flag is always exercised (known finding F7)
- tweak: func(cfg *config.Config) {
+			tweak: func(cfg *config.Config) {
 				cfg.Cookie.SameSite = cc.sameSite
 				if !cc.sso && cc.domain != "" { // leftovers of a disabled SSO set-up
 					cfg.SSO.Domain, cfg.SSO.SessionCookieName, cfg.SSO.ServerDefaultRedirectURL = cc.domain, "sso.session", "https://www.example.com"
@@ -230,68 +232,78 @@ func runCook(c *ctx) {
 			if cause == "login-pardown" {
 				continue // exercised by the PAR variant below
 			}
-			fb := newBrowser()
-			s.idp.mu.Lock()
-			s.idp.gate = nil
-			if cause == "callback-idpdown" {
-				s.idp.gate = func(kind string, f url.Values) *idpFault { return &idpFault{status: 503, body: "down"} }
+			// gap: time that passes IN THE BROWSER between two failures (its clock decides when a cookie with Max-Age / Expires lapses): a slow loop must be
+			// bounded like a fast one - the counter may not quietly lapse between two failures
+			for _, gap := range []time.Duration{0, 7 * time.Second, 2 * time.Hour} {
+				if gap > 0 && (cause == "callback-otherkey" || cause == "callback-idp4xx") {
+					continue
+				}
+				fb := newBrowser()
+				var skew time.Duration
+				fb.vnow = func() time.Time { return time.Now().Add(skew) }
+				s.idp.mu.Lock()
+				s.idp.gate = nil
+				if cause == "callback-idpdown" {
+					s.idp.gate = func(kind string, f url.Values) *idpFault { return &idpFault{status: 503, body: "down"} }
+				}
+				if cause == "callback-idp4xx" {
+					s.idp.gate = func(kind string, f url.Values) *idpFault {
+						return &idpFault{status: 400, body: `{"error":"invalid_grant","error_description":"no"}`}
+					}
+				}
+				s.idp.mu.Unlock()
+				unknownHost := "unknown.example"
+				if cc.sso {
+					unknownHost = "unknown." + strings.TrimPrefix(cc.domain, ".") // inside the cookie domain: cookies keep working
+				}
+				// failing returns the next failing request of this cause (a browser that is sent round the loop again)
+				hopNo := 0
+				failing := func() string {
+					switch cause {
+					case "callback-nocookie":
+						return base + "/oauth2/callback?code=x&state=y"
+					case "logout-unknownhost":
+						return iu.Scheme + "://" + unknownHost + ipath + "/oauth2/logout"
+					}
+					lrp := rp
+					if cause == "callback-otherkey" && hopNo%2 == 1 {
+						lrp = rpOtherKey
+					}
+					r1 := fb.do(lrp, "GET", base+"/oauth2/login", nav)
+					lu, err := url.Parse(r1.Location)
+					if err != nil || r1.Status != 302 {
+						return ""
+					}
+					code, req, _ := s.idp.authorize(lu)
+					st := req.State
+					if cause == "callback-badstate" {
+						st = "wrong"
+					}
+					return base + "/oauth2/callback?" + url.Values{"code": {code}, "state": {st}}.Encode()
+				}
+				var statuses, retryVals []string
+				cur := failing()
+				for hop := 0; hop < 7 && cur != ""; hop++ {
+					hrp := rp
+					if cause == "callback-otherkey" && hop%2 == 0 {
+						hrp = rpOtherKey // replicas holding different deployment keys behind one ingress: the login was served by one, its callback lands on the other
+					}
+					resp := fb.do(hrp, "GET", cur, nav)
+					hopNo = hop + 1
+					cc.emitCookies(c, "error:"+cause, resp, ipath)
+					statuses = append(statuses, strconv.Itoa(resp.Status))
+					v := "-"
+					if jc := fb.get(cookie.Retry); jc != nil {
+						v = jc.Value
+					}
+					retryVals = append(retryVals, v)
+					// whatever the answer (retry redirect or error page), the browser ends up failing the same way again - at once or after a while
+					skew += gap
+					cur = failing()
+				}
+				c.count("chain:" + cause + " gap=" + gap.String())
+				c.emit("retrychain", "cause", cause, "statuses", statuses, "retryvals", retryVals, "sso", cc.sso, "ingresspath", hx(ipath), "gap", int64(gap/time.Second))
 			}
-			if cause == "callback-idp4xx" {
-				s.idp.gate = func(kind string, f url.Values) *idpFault {
-					return &idpFault{status: 400, body: `{"error":"invalid_grant","error_description":"no"}`}
-				}
-			}
-			s.idp.mu.Unlock()
-			unknownHost := "unknown.example"
-			if cc.sso {
-				unknownHost = "unknown." + strings.TrimPrefix(cc.domain, ".") // inside the cookie domain: cookies keep working
-			}
-			// failing returns the next failing request of this cause (a browser that is sent round the loop again)
-			hopNo := 0
-			failing := func() string {
-				switch cause {
-				case "callback-nocookie":
-					return base + "/oauth2/callback?code=x&state=y"
-				case "logout-unknownhost":
-					return iu.Scheme + "://" + unknownHost + ipath + "/oauth2/logout"
-				}
-				lrp := rp
-				if cause == "callback-otherkey" && hopNo%2 == 1 {
-					lrp = rpOtherKey
-				}
-				r1 := fb.do(lrp, "GET", base+"/oauth2/login", nav)
-				lu, err := url.Parse(r1.Location)
-				if err != nil || r1.Status != 302 {
-					return ""
-				}
-				code, req, _ := s.idp.authorize(lu)
-				st := req.State
-				if cause == "callback-badstate" {
-					st = "wrong"
-				}
-				return base + "/oauth2/callback?" + url.Values{"code": {code}, "state": {st}}.Encode()
-			}
-			var statuses, retryVals []string
-			cur := failing()
-			for hop := 0; hop < 7 && cur != ""; hop++ {
-				hrp := rp
-				if cause == "callback-otherkey" && hop%2 == 0 {
-					hrp = rpOtherKey // replicas holding different deployment keys behind one ingress: the login was served by one, its callback lands on the other
-				}
-				resp := fb.do(hrp, "GET", cur, nav)
-				hopNo = hop + 1
-				cc.emitCookies(c, "error:"+cause, resp, ipath)
-				statuses = append(statuses, strconv.Itoa(resp.Status))
-				v := "-"
-				if jc := fb.get(cookie.Retry); jc != nil {
-					v = jc.Value
-				}
-				retryVals = append(retryVals, v)
-				// whatever the answer (retry redirect or error page), the browser ends up failing the same way again
-				cur = failing()
-			}
-			c.count("chain:" + cause)
-			c.emit("retrychain", "cause", cause, "statuses", statuses, "retryvals", retryVals, "sso", cc.sso, "ingresspath", hx(ipath))
 		}
 		s.idp.mu.Lock()
 		s.idp.gate = nil
